@@ -481,12 +481,14 @@ func (s *Scope) LookupRecordByName(rname string) *FRecord {
 }
 
 func (s *Scope) lookupRecordCur(fieldNames []string) *FRecord {
+	// several records may have these field names; map iteration order must not decide: take the first by name, as fc does.
+	var found *FRecord
 	for _, rt := range s.recordMap {
-		if rt.Match(fieldNames) {
-			return rt
+		if rt.Match(fieldNames) && (found == nil || rt.name < found.name) {
+			found = rt
 		}
 	}
-	return nil
+	return found
 
 }
 
